@@ -367,8 +367,9 @@ PROPS["C13"] = {
 }
 
 PROPS["C14"] = {
-    "modules": ["Gmsm.Props.C14", "Gmsm.Props.C14Codec"],
+    "modules": ["Gmsm.Props.C14", "Gmsm.Props.C14Codec", "Gmsm.Props.C18PubHex"],
     "theorems": [
+        "Props.C18PubHex.readPublicKey_sound",
         "Props.C14.hex_roundtrip", "Props.C14.hex_priv_roundtrip", "Props.C14.pub_encoding_roundtrip",
         "Props.C14.sig_asn1_roundtrip", "Props.C14.compress_x_roundtrip", "Props.C14.loader_accepts_iff",
         "Props.C14.b32_length", "Gmsm.os2ip_i2ospR", "Gmsm.os2ip_natBytes", "Props.C14Codec.compress_roundtrip", "Props.C14Codec.decompress_of_parity", "Props.C14Codec.decompress_sound", "Props.C14Codec.decompress_eq_none_iff", "Props.C14Codec.compress_decompress", "Props.C14Codec.no_point_with_y_zero", "Props.C14Codec.cipher_asn1_roundtrip", "Props.C14Codec.cipher_asn1_roundtrip_der", "Props.C14Codec.cipher_asn1_roundtrip_xy", "Props.C14Codec.cipherMarshal_eq_spec", "Props.C14Codec.parseLength_marshalLength", "Props.C14Codec.leftPad32_natBytes_os2ip", "Props.C14Codec.os2ip_inj",
@@ -473,8 +474,9 @@ PROPS["C17"] = {
 
 PROPS["C18"] = {
     "judge": judge_parsers,
-    "modules": ["Gmsm.Props.C18", "Gmsm.Props.C18Linear", "Gmsm.Props.C18Output", "Gmsm.Props.C02", "Gmsm.Props.C17", "Gmsm.Props.C16", "Gmsm.Props.C16Codec", "Gmsm.Props.C14Codec", "Gmsm.Props.C17Idem", "Gmsm.Props.C15Codec", "Gmsm.Props.C09Names", "Gmsm.Props.C15KeyAgreement", "Gmsm.Props.C17Fix", "Gmsm.Props.C15Strict", "Gmsm.Props.C18Empty"],
+    "modules": ["Gmsm.Props.C18", "Gmsm.Props.C18Linear", "Gmsm.Props.C18Output", "Gmsm.Props.C02", "Gmsm.Props.C17", "Gmsm.Props.C16", "Gmsm.Props.C16Codec", "Gmsm.Props.C14Codec", "Gmsm.Props.C17Idem", "Gmsm.Props.C15Codec", "Gmsm.Props.C09Names", "Gmsm.Props.C15KeyAgreement", "Gmsm.Props.C17Fix", "Gmsm.Props.C15Strict", "Gmsm.Props.C18Empty", "Gmsm.Props.C18PubHex"],
     "theorems": [
+        "Props.C18PubHex.readPublicKey_sound", "Props.C18PubHex.readPublicKey_le_old", "Props.C18PubHex.readPublicKey_complete", "Props.C18PubHex.old_accepts_non_point",
         "Props.C18.readItems_ok_cases", "Props.C18Empty.ber2der_empty_indefinite_byte", "Props.C18Empty.ber2der_empty_indefinite", "Props.C18Empty.readObject_empty_indefinite", "Props.C18Empty.readObject_indefinite", "Props.C18Empty.ber2der_indefinite", "Props.C18Empty.ber2der_indefinite_members", "Props.C18Empty.startsEOC_encodeTo",
         "Props.C17Fix.parseSignedData_fails_closed",
         "Props.C15KeyAgreement.clientKx_never_panics", "Props.C15KeyAgreement.ecdheGM_always_error",
